@@ -216,6 +216,7 @@ def main(argv=None):
             r.name = r.name + " [bounded-unroll<=3]"
             failed.append((c, r))
     native_viol = []
+    native_probes = []  # probes of recorded findings made by the native harnesses: {finding id: reproduces (bool) or a short witness}
     for b in spec.get("bounded", []):
         if tier == "quick" and b.get("thorough_only"):
             continue
@@ -232,6 +233,8 @@ def main(argv=None):
             problems.append(("error", "bounded check %s crashed (rc=%s): %s" % (b["name"], rc, raw[-800:])))
         elif data.get("violation"):
             native_viol.append((b, data))
+        if data and isinstance(data.get("known"), dict):
+            native_probes.append((b, data))
 
     # ---- classification of failing obligations against known findings
     def match_known(name):
@@ -261,6 +264,19 @@ def main(argv=None):
                         known_hit.setdefault(kid, (k, []))
             continue
         new_native.append((b, data))
+
+    # a finding that a native probe reproduces: KNOWN-FINDING if it is listed for this property, a violation if it is not
+    listed_ids = {k["id"] for k in known_for}
+    for b, data in native_probes:
+        for kid, val in sorted(data["known"].items()):
+            if not val:
+                continue
+            if kid in listed_ids:
+                known_hit.setdefault(kid, ([k for k in known_for if k["id"] == kid][0], []))
+            elif not any(kid == k["id"] for k in known.get("findings", [])) or True:
+                if not data.get("violation"):
+                    new_native.append((b, dict(data, violation=True, what="the probe of finding %s reproduces (%s) but the finding is not listed for %s in known_findings.json"
+                                                % (kid, val, a.prop), witness=val)))
 
     os.makedirs(os.path.join(VERIF, "evidence", "replays"), exist_ok=True)
     nviol = 0
